@@ -70,6 +70,10 @@ def gen(tier, rnd):
             L.append('to %d %d 0:%s,%d:%s' % (H, B, hx(R[:k]), dl + 1200, hx(R[k:])))    # long stall: must be timed out
         if B >= H + 1000:
             L.append('to %d %d 0:%s,%d:%s' % (H, B, hx(R[:len(R) - 3]), H + 600, hx(R[len(R) - 3:])))   # body slower than the header time-out but within the body time-out
+    # settings that are not whole seconds: completion after the last tick below the time-out (a time-out rounded down to seconds would expire there)
+    L.append('to 3000 1900 0:%s,1600:%s' % (hx(R[:len(R) - 3]), hx(R[len(R) - 3:])))
+    L.append('to 1900 3000 0:%s,1600:%s' % (hx(R[:11]), hx(R[11:])))
+    L.append('to 2900 2900 0:%s,2600:%s' % (hx(R[:30]), hx(R[30:])))
     return L
 
 BAD = ('ASAN', 'UBSAN', 'HANG', 'CRASH', 'TERMINATE', 'MISSING', 'bad-op', 'connect-failed')
